@@ -161,6 +161,8 @@ fn max_stall(from_ms: u64, to_ms: u64) -> u64 {
 struct HState {
     arrivals: usize,
     fault_conn: Option<u64>,
+    /// connection that got bytes which MAY break it (corr): its close is awaited if requests failed
+    watch_conn: Option<u64>,
 }
 
 fn err_class(e: &ExecutionError) -> String {
@@ -344,7 +346,7 @@ async fn run_case(c: Case) -> String {
     };
 
     // ---- the scripted fault --------------------------------------------------------------
-    let hs = Arc::new(Mutex::new(HState { arrivals: 0, fault_conn: None }));
+    let hs = Arc::new(Mutex::new(HState { arrivals: 0, fault_conn: None, watch_conn: None }));
     {
         let hs = hs.clone();
         let c = c.clone();
@@ -363,6 +365,7 @@ async fn run_case(c: Case) -> String {
                 if k != c.j {
                     return Some(vec![echo(&c, marker)]);
                 }
+                st.watch_conn = Some(ctx.conn_id);
                 let mut b = echo_frame(&c, marker, ctx.stream).encode();
                 // the header without the stream id: version, flags, opcode, the four length bytes.  The body
                 // is left alone: a server may legitimately send other metadata / cells, and the client
@@ -463,6 +466,7 @@ async fn run_case(c: Case) -> String {
         let mut st = hs.lock().unwrap();
         st.arrivals = 0;
         st.fault_conn = None;
+        st.watch_conn = None;
     }
     let tp = Instant::now();
     let mut handles = Vec::new();
@@ -579,7 +583,10 @@ async fn run_case(c: Case) -> String {
         fu = fu_phase;
     }
     // let the faulted connection's close reach the mock (needed to attribute a keepalive timeout)
-    let fault_conn = hs.lock().unwrap().fault_conn;
+    let fault_conn = {
+        let st = hs.lock().unwrap();
+        st.fault_conn.or(if res.iter().any(|r| r.starts_with("err:broken")) { st.watch_conn } else { None })
+    };
     if let Some(fc) = fault_conn {
         let tw = Instant::now();
         while cluster.connections(Some(0)).iter().any(|x| x.conn_id == fc) && tw.elapsed() < Duration::from_secs(10) {
